@@ -4,7 +4,7 @@ import itertools
 
 from ..core import AnalysisError
 from ..cfront import strip, text
-from .. import ckern, xlayer, pyxread
+from .. import cq, pq, cnorm, ckern, xlayer, pyxread
 from ..ceval import CEval, find_all, loop_parts, body_stmts, loop_var, stores_to
 from ..formula import Canon, Ratio, Undecided, show, num, ExprBuilder
 from ..pyfront import Mod, dotted, const_value
@@ -28,26 +28,71 @@ def run(rep):
     rep.rule("R15.b", "edges = consecutive vertices closed by ivert % nvertices; bounding-box skip => answer vector zeroed on both wrapper paths; box from the passed polygon")
     rep.rule("R15.c", "cells_inside_polygon tests the centres of all nrows*ncols cells and returns the flagged ones")
     K = ckern.analyze(rep.repo)
-    fn = K["fns"].get("c_inside")
-    if fn is None:
+    if K["fns"].get("c_inside") is None:
         raise AnalysisError("gis/c_points_inside_polygon.c: c_inside not found")
+    fn = ckern.normalised(K, "c_inside", rep.repo)
     file = fn["file"]
-    outer = [s for s in fn["body"]["inner"] if s.get("kind") == "ForStmt"]
+    top = body_stmts(fn["body"])
+    outer = [s for s in top if s.get("kind") == "ForStmt" and "inside" in cnorm.writes(s)[1]]
     if len(outer) != 1:
         raise AnalysisError(f"{file}: point loop not found")
     outer = outer[0]
-    pv = loop_var(outer)
+    olr = cq.loop_range(outer, cq.preceding(top, outer))
+    pv = olr["var"] if olr else loop_var(outer)
     ostm = body_stmts(loop_parts(outer)[3])
     el = [s for s in ostm if s.get("kind") == "ForStmt"]
     if len(el) != 1:
         raise AnalysisError(f"{file}: edge loop not found")
     el = el[0]
-    ev = loop_var(el)
+    elr = cq.loop_range(el, cq.preceding(ostm, el))
+    ev = elr["var"] if elr else loop_var(el)
     estm = body_stmts(loop_parts(el)[3])
-    rep.unit(f"{file}: c_inside (point loop, edge loop); gis/gutils.py: points_inside_polygon; gis/grid.py: cells_inside_polygon; c_hydrodiy_gis.pyx: points_inside_polygon")
-    # ---- edge step
+    rep.unit(f"{file}: c_inside (normalised: point loop, edge loop); gis/gutils.py: points_inside_polygon; gis/grid.py: cells_inside_polygon; c_hydrodiy_gis.pyx: points_inside_polygon")
+    rep.check(cq.range_is(olr, "0", "npoints-1"), "R15.b", file, "c_inside", "every point is tested once", "", line=outer.get("_line"))
+    PX, PY = f"points[2*{pv}]", f"points[2*{pv}+1]"
+    # state carried by the edge loop: the previous vertex (two scalars assigned from the polygon at the end of the body)
+    def only_index(c):
+        return None if set(cq.cond_atoms(c, True).d.symbols() if isinstance(cq.cond_atoms(c, True), cq.Atom) else ["?"]) <= {ev, "nvertices"} else False
+    plain = CEval(only_index)
+    plain.summarise_loops = True
+    plain.run(estm, {})
+    endenv = [f_ for f_ in plain.finals if f_[2] == "end"]
+    if not endenv:
+        raise AnalysisError(f"{file}: edge loop body has no normal end")
+    cnx = Canon()
+    p1x = p1y = None
+    E_alts = []          # (path conditions on the edge counter, index of the second vertex's abscissa)
+    for env_, conds_, _how in endenv:
+        carried = {k_: v for k_, v in env_.items() if "[" not in k_ and v[0] == 'call' and v[1] == 'A:polygon'}
+        for a_, va in carried.items():
+            for b_, vb in carried.items():
+                if a_ != b_ and cnx.ratio(vb[2][0]) - cnx.ratio(va[2][0]) == Ratio.const(1):
+                    if p1x not in (None, a_) or p1y not in (None, b_):
+                        raise AnalysisError(f"{file}: previous-vertex variables of the edge loop differ between paths")
+                    p1x, p1y = a_, b_
+                    E_alts.append((conds_, va[2][0]))
+    if p1x is None or len(E_alts) != len(endenv):
+        raise AnalysisError(f"{file}: previous-vertex variables of the edge loop not recognised")
+    E = E_alts[0][1]
+
+    def polygon_cb(idx):
+        c_ = Canon()
+        for _cnd, E_ in E_alts:
+            d = c_.ratio(idx) - c_.ratio(E_)
+            if d.is_zero():
+                return ('sym', 'P2X')
+            if d == Ratio.const(1):
+                return ('sym', 'P2Y')
+        raise Undecided(f"polygon[{show(idx)}]")
+
+    def points_cb(idx):
+        if cq.same_expr(idx, f"2*{pv}"):
+            return ('sym', 'X')
+        if cq.same_expr(idx, f"2*{pv}+1"):
+            return ('sym', 'Y')
+        raise Undecided(f"points[{show(idx)}]")
     bad, n = [], 0
-    xint_ok = None
+    xint_seen = {True: set(), False: set()}
     for ranks in rank_orders(3):
         ry, r1, r2 = ranks
         for XL, NH, AB in itertools.product([True, False], repeat=3):
@@ -63,55 +108,58 @@ def run(rep):
                     return f(rank_of[show(a)] for a in e[2])
                 return None
 
+            def is_absdiff(e, a, b):
+                return e[0] == 'call' and e[1] == 'abs' and (cq.same_expr(e[2][0], f"{a}-{b}") or cq.same_expr(e[2][0], f"{b}-{a}"))
+
             def oracle(c, XL=XL, NH=NH, AB=AB):
+                if c[0] == 'or':
+                    # the abscissa predicate as a whole:  |x1-x2| < atol  ||  x <= xinters
+                    parts = [c[1], c[2]]
+                    vert = [p_ for p_ in parts if p_[0] == 'cmp' and ((p_[1] == '<' and is_absdiff(p_[2], "P1X", "P2X") and show(p_[3]) == "atol") or
+                                                                   (p_[1] == '>' and is_absdiff(p_[3], "P1X", "P2X") and show(p_[2]) == "atol"))]
+                    absc = [p_ for p_ in parts if p_[0] == 'cmp' and ((p_[1] == '<=' and show(p_[2]) == "X") or (p_[1] == '>=' and show(p_[3]) == "X")) and p_ not in vert]
+                    if len(vert) == 1 and len(absc) == 1:
+                        xi = absc[0][3] if show(absc[0][2]) == "X" else absc[0][2]
+                        xint_seen[NH].add(show(xi))
+                        xint_seen.setdefault("expr", {})[NH] = xi
+                        return AB
                 if c[0] in ('and', 'or', 'not'):
                     return _bool(c, oracle)
                 if c[0] != 'cmp':
                     return None
+                if only_index(c) is None:
+                    return True          # a test on the edge counter only (closing edge or not): both sides name the same vertex roles
                 a, b, o = c[2], c[3], c[1]
                 va, vb = val(a), val(b)
                 if va is not None and vb is not None:
                     return {"<": va < vb, "<=": va <= vb, ">": va > vb, ">=": va >= vb, "==": va == vb, "!=": va != vb}[o]
                 sa, sb = show(a), show(b)
-                if sa == "X" and sb.startswith("max(") and o == "<=":
+                if sa == "X" and b[0] == 'call' and b[1] == 'max' and {show(x) for x in b[2]} == {"P1X", "P2X"} and o == "<=":
                     return XL
-                if sa == "DISTY" and sb == "atol" and o == ">":
+                if sb == "X" and a[0] == 'call' and a[1] == 'max' and {show(x) for x in a[2]} == {"P1X", "P2X"} and o == ">=":
+                    return XL
+                if is_absdiff(a, "P1Y", "P2Y") and sb == "atol" and o == ">":
                     return NH
-                if (sa == "DISTX" and sb == "atol" and o == "<"):
-                    return AB          # combined abscissa predicate: decided as a whole below
-                if sa == "X" and o == "<=" and "XINT" in sb:
-                    return AB
+                if is_absdiff(b, "P1Y", "P2Y") and sa == "atol" and o == "<":
+                    return NH
                 return None
-            ce = CEval(oracle, {"polygon": lambda idx: ('sym', 'P2X') if "+" not in show(idx) else ('sym', 'P2Y'), "inside": lambda idx: ('sym', 'IN0')})
-            env = {"x": ('sym', 'X'), "y": ('sym', 'Y'), "p1x": ('sym', 'P1X'), "p1y": ('sym', 'P1Y'), "p2x": ('sym', 'P2X'), "p2y": ('sym', 'P2Y')}
-            # abstract dist / xinters at their definitions
-            stm2 = []
-            for s in estm:
-                if s.get("kind") == "BinaryOperator" and s.get("opcode") == "=" and text(s["inner"][0]) in ("p2x", "p2y", "k"):
-                    continue
-                stm2.append(s)
-            # walk manually so that `dist` gets its role symbol (first definition: |p1y-p2y|, second: |p1x-p2x|)
-            roles = iter(["DISTY", "DISTX"])
-            cev = CEval(oracle, ce.arrays)
-
-            def prep(stmts):
-                out = []
-                for s in stmts:
-                    if s.get("kind") == "BinaryOperator" and s.get("opcode") == "=" and text(s["inner"][0]) == "dist":
-                        role = next(roles)
-                        out.append(("setdist", role))
-                    elif s.get("kind") == "IfStmt":
-                        out.append(("if", s))
-                    elif s.get("kind") == "CompoundStmt":
-                        out += prep(s.get("inner", []))
-                    else:
-                        out.append(("stmt", s))
-                return out
+            ce = CEval(oracle, {"polygon": polygon_cb, "points": points_cb})
+            ce.summarise_loops = True
+            env = {p1x: ('sym', 'P1X'), p1y: ('sym', 'P1Y')}
             try:
-                toggled = _edge_walk(cev, stm2, env, roles)
+                ce.run(estm, env)
             except Undecided as ex:
                 rep.undecided("R15.a", file, "c_inside", f"edge step ordering {ranks}", str(ex), line=el.get("_line"))
                 continue
+            und = [f_ for f_ in ce.finals if f_[1]]
+            if und:
+                rep.undecided("R15.a", file, "c_inside", f"edge step ordering {ranks}", "undecided test " + "; ".join(show(c) for c, _t in und[0][1])[:120], line=el.get("_line"))
+                continue
+            tog = [e for e in ce.effects if e.arr == "inside"]
+            if any(not (e.op == "=" and cq.same_expr(e.idx, pv) and cq.same_expr(e.val, f"1 - inside[{pv}]")) for e in tog[:1]) or len(tog) > 1:
+                bad.append(f"flag update {[repr(e)[:60] for e in tog]}")
+                continue
+            toggled = len(tog) == 1
             ymin, ymax = min(r1, r2), max(r1, r2)
             want = (ymin < ry <= ymax) and XL and AB
             if toggled != want:
@@ -120,44 +168,33 @@ def run(rep):
     rep.check(not bad, "R15.a", file, "c_inside", f"edge step toggles the flag iff ymin < y <= ymax and the abscissa tests hold ({n} cases: 13 orderings x 8 predicate assignments)",
               " | ".join(bad[:3]) + (f" | ... {len(bad)} cases" if len(bad) > 3 else ""), line=el.get("_line"))
     rep.floor("edge step cases", n, 100)
-    # intersection abscissa
-    xi = [s for s in find_all(el, lambda n: n.get("kind") in ("BinaryOperator", "CompoundAssignOperator") and text(n["inner"][0]) == "xinters")]
-    cn = Canon()
-    okx = False
-    det = ""
-    if len(xi) == 2:
-        base = [s for s in xi if s.get("opcode") == "="]
-        inc = [s for s in xi if s.get("opcode") == "+="]
-        if base and inc:
-            from ..ceval import to_expr
-            e0 = to_expr(base[0]["inner"][1], {})
-            e1 = to_expr(inc[0]["inner"][1], {})
-            want = ('div', ('mul', ('sub', ('sym', 'y'), ('sym', 'p1y')), ('sub', ('sym', 'p2x'), ('sym', 'p1x'))), ('sub', ('sym', 'p2y'), ('sym', 'p1y')))
-            okx = e0 == ('sym', 'p1x') and cn.ratio(e1) == cn.ratio(want)
-            det = f"xinters = {show(e0)} + {show(e1)}"
-            guard = [s for s in find_all(el, lambda n: n.get("kind") == "IfStmt") if find_all(s, lambda m: m is inc[0])]
-            okx = okx and bool(guard) and text(guard[-1]["inner"][0]).replace(" ", "") in ("dist>atol",)
-    rep.check(okx, "R15.a", file, "c_inside", "intersection abscissa = x1 + (y - y1)(x2 - x1)/(y2 - y1), division guarded by |y1 - y2| > atol", det, line=el.get("_line"))
-    dd = [text(s["inner"][1]).replace(" ", "") for s in find_all(el, lambda n: n.get("kind") == "BinaryOperator" and n.get("opcode") == "=" and text(n["inner"][0]) == "dist")]
-    rep.check(dd == ["fabs(p1y-p2y)", "fabs(p1x-p2x)"] or dd == ["fabs(p2y-p1y)", "fabs(p2x-p1x)"], "R15.a", file, "c_inside", "tolerance tests use |y1-y2| (horizontal edge) then |x1-x2| (vertical edge)", str(dd), line=el.get("_line"))
+    xe = xint_seen.get("expr", {})
+    okx = True in xe and False in xe and cq.same_expr(xe[True], "P1X + (Y - P1Y)*(P2X - P1X)/(P2Y - P1Y)") and cq.same_expr(xe[False], "P1X")
+    rep.check(okx, "R15.a", file, "c_inside", "intersection abscissa = x1 + (y - y1)(x2 - x1)/(y2 - y1) when |y1 - y2| > atol, else x1 (no division for horizontal edges)",
+              f"non-horizontal: {show(xe[True])[:100] if True in xe else None}; horizontal: {show(xe[False])[:60] if False in xe else None}", line=el.get("_line"))
     # ---- R15.b edges and closure
-    einit, econd = text(loop_parts(el)[0]).replace(" ", ""), text(loop_parts(el)[1]).replace(" ", "")
-    kdef = [text(s["inner"][1]).replace(" ", "") for s in estm if s.get("kind") == "BinaryOperator" and text(s["inner"][0]) == "k"]
-    adv = {text(s["inner"][0]): text(s["inner"][1]).replace(" ", "") for s in estm if s.get("kind") == "BinaryOperator" and s.get("opcode") == "="}
-    okE = einit == f"{ev}=1" and econd in (f"{ev}<nvertices+1", f"{ev}<=nvertices") and kdef == [f"2*({ev}%nvertices)"] and \
-        adv.get("p2x") == "polygon[k]" and adv.get("p2y") == "polygon[k+1]" and adv.get("p1x") == "p2x" and adv.get("p1y") == "p2y"
-    pre = {text(s["inner"][0]): text(s["inner"][1]).replace(" ", "") for s in ostm if s.get("kind") == "BinaryOperator" and s.get("opcode") == "="}
-    okE = okE and pre.get("p1x") == "polygon[0]" and pre.get("p1y") == "polygon[1]"
-    rep.check(okE, "R15.b", file, "c_inside", "edges are consecutive vertex pairs starting at vertex 0 and closed through ivert % nvertices (open or closed vertex lists)",
-              f"loop {einit};{econd}; k={kdef}", line=el.get("_line"))
-    rep.check(pre.get("x") == f"points[2*{pv}]" and pre.get("y") == f"points[2*{pv}+1]" and pre.get(f"inside[{pv}]") == "0", "R15.b", file, "c_inside",
-              "point i = (points[2i], points[2i+1]); flag reset before the edge loop", str({k: pre.get(k) for k in ('x', 'y')}), line=outer.get("_line"))
-    bb = [s for s in ostm if s.get("kind") == "IfStmt" and find_all(s, lambda n: n.get("kind") == "ContinueStmt") and "polygon_xlim" in text(s["inner"][0])]
-    okbb = False
-    if bb:
-        t = text(bb[0]["inner"][0]).replace(" ", "")
-        okbb = all(x in t for x in ("x<polygon_xlim[0]", "x>polygon_xlim[1]", "y<polygon_ylim[0]", "y>polygon_ylim[1]")) and "&&" not in t
-    rep.check(okbb, "R15.b", file, "c_inside", "points strictly outside the bounding box are skipped (their flag is left as it arrived)", "", line=outer.get("_line"))
+    okclose = len(E_alts) == 1 and cq.same_expr(E, f"2*({ev} % nvertices)")
+    if len(E_alts) == 2:
+        # 2*ivert while ivert < nvertices, 0 for the closing edge
+        good = 0
+        for cnd, E_ in E_alts:
+            if cq.holds(cnd, f"{ev} < nvertices", True) and cq.same_expr(E_, f"2*{ev}"):
+                good += 1
+            elif (cq.excluded(cnd, f"{ev} < nvertices", True) or cq.holds(cnd, f"{ev} >= nvertices", True) or cq.holds(cnd, f"{ev} == nvertices", True)) and cq.same_expr(E_, "0"):
+                good += 1
+        okclose = good == 2
+    pre_ce = cq.evaluate(cq.preceding(ostm, el), oracle=lambda c: False)
+    penv = pre_ce.finals[-1][0] if pre_ce.finals else {}
+    okstart = p1x in penv and p1y in penv and cq.same_expr(penv[p1x], "polygon[0]") and cq.same_expr(penv[p1y], "polygon[1]")
+    rep.check(okclose and okstart and cq.range_is(elr, "1", "nvertices"), "R15.b", file, "c_inside",
+              "edges are consecutive vertex pairs starting at vertex 0 and closed through ivert % nvertices (open or closed vertex lists)",
+              f"second vertex index {show(E)[:60]}; start {show(penv.get(p1x, num(0)))[:30]}", line=el.get("_line"))
+    reset = [e for e in cq.stores(pre_ce, "inside") if e.op == "=" and cq.same_expr(e.idx, pv) and cq.same_expr(e.val, "0")]
+    rep.check(len(reset) == 1, "R15.b", file, "c_inside", "flag reset before the edge loop", "", line=outer.get("_line"))
+    pre_all = cq.evaluate(cq.preceding(ostm, el))
+    box = f"{PX} < polygon_xlim[0] || {PX} > polygon_xlim[1] || {PY} < polygon_ylim[0] || {PY} > polygon_ylim[1]"
+    skips = [r for r in pre_all.returns if r[0] == "ContinueStmt" and cq.holds(r[1], box, False)]
+    rep.check(bool(skips), "R15.b", file, "c_inside", "points strictly outside the bounding box are skipped (their flag is left as it arrived)", "", line=outer.get("_line"))
     # shim: bounding box from the polygon passed
     P = pyxread.load_all(rep.repo)
     sh = [s for s in P["c_hydrodiy_gis"]["shims"] if s.name == "points_inside_polygon"]
@@ -188,25 +225,26 @@ def run(rep):
     # ---- R15.c
     mod = Mod(rep.repo, "gis/grid.py")
     f = mod.func("Grid.cells_inside_polygon")
-    asg = {n.targets[0].id: n for n in ast.walk(f) if isinstance(n, ast.Assign) and isinstance(n.targets[0], ast.Name)}
-    b = ExprBuilder(lambda d, env: ('sym', d.split(".")[-1]) if d.startswith("self.") else None, None)
-    okn = False
-    if "ncells" in asg:
-        try:
-            c2 = Canon()
-            okn = c2.ratio(b.build(asg["ncells"].value, {})) == c2.ratio(b.build(ast.parse("np.arange(nrows*ncols)", mode="eval").body, {"nrows": ('sym', 'nrows'), "ncols": ('sym', 'ncols')}))
-        except Undecided:
-            okn = False
-    rep.check(okn, "R15.c", "gis/grid.py", "Grid.cells_inside_polygon", "every cell of the grid is tested: arange(nrows*ncols)", ast.unparse(asg["ncells"].value) if "ncells" in asg else "", line=f.lineno)
-    okp = "points" in asg and ast.unparse(asg["points"].value).replace(" ", "") == "self.cell2coord(ncells)"
-    ins = [n for n in ast.walk(f) if isinstance(n, ast.Call) and dotted(n.func) == "gutils.points_inside_polygon"]
-    okp = okp and len(ins) == 1 and [ast.unparse(a) for a in ins[0].args[:2]] == ["points", "polygon"]
-    rep.check(okp, "R15.c", "gis/grid.py", "Grid.cells_inside_polygon", "the points tested are the cell centres (cell2coord), against the given polygon", "", line=f.lineno)
-    dd = [n for n in ast.walk(f) if isinstance(n, ast.Dict)]
-    okd = bool(dd) and {const_value(k): ast.unparse(v).replace(" ", "") for k, v in zip(dd[0].keys, dd[0].values)} == \
-        {"x": "points[inside,0]", "y": "points[inside,1]", "cell": "ncells[inside]"}
-    cast = any(isinstance(n, ast.Assign) and ast.unparse(n).replace(" ", "") == "inside=inside.astype(bool)" for n in ast.walk(f))
-    rep.check(okd and cast, "R15.c", "gis/grid.py", "Grid.cells_inside_polygon", "returns x, y and cell number of exactly the flagged cells", "", line=f.lineno)
+    rets = [p_ for p_ in pq.PEval().run(f) if p_.how == "return"]
+    if len(rets) != 1:
+        raise AnalysisError("gis/grid.py: Grid.cells_inside_polygon: single returning path expected")
+    v = rets[0].value
+    CELLS = "np.arange(self.nrows*self.ncols)"
+    PTS = f"self.cell2coord({CELLS})"
+    FLAGS = f"gutils.points_inside_polygon({PTS}, polygon)"
+    masks = [f"({FLAGS}).astype(bool)", f"np.flatnonzero({FLAGS} != 0)", f"{FLAGS} != 0", f"{FLAGS} == 1", f"{FLAGS} > 0", f"np.flatnonzero({FLAGS})",
+             f"np.nonzero({FLAGS})[0]", f"np.where({FLAGS})[0]"]
+    okd = False
+    det = show(v)[:200]
+    if pq.call_named(v, ".DataFrame") and len(v[2]) >= 2 and pq.call_named(v[2][1], "dict"):
+        keys, vals = v[2][1][2][0][1], v[2][1][2][1][1]
+        got = {k_[1].strip("'\""): x for k_, x in zip(keys, vals) if k_[0] == 'sym'}
+        for m in masks:
+            if set(got) == {"x", "y", "cell"} and pq.same(got["x"], f"{PTS}[{m}, 0]") and pq.same(got["y"], f"{PTS}[{m}, 1]") and pq.same(got["cell"], f"{CELLS}[{m}]"):
+                okd = True
+    rep.check(okd, "R15.c", "gis/grid.py", "Grid.cells_inside_polygon",
+              "returns x, y and cell number of exactly the flagged cells, the points tested being the centres (cell2coord) of all nrows*ncols cells against the given polygon",
+              det, line=f.lineno)
     return EXPLANATION
 
 
